@@ -5,20 +5,26 @@
    nth_root x 1 = x), for every arena, every state whose canonical map
    satisfies the invariant [st_ok], every node id and every sufficient fuel.
 
-   HYPOTHESES, compared with the task statement: nothing was weakened.
-   - [flat_ok] is [True]: the optimizer needs no shape restriction.  Nodes
-     that are neither unary nor binary (constants, variables, oracles, remaps,
-     applies, the invalid node) only go through [uniq], which preserves the
-     value; a transformed oracle is rebuilt over children denoting the same
-     functions.  [opt_tree_sem] is therefore the stronger statement.
+   HYPOTHESES.
+   - The four mutually recursive functions are relative to [coord], the model of
+     Tree::optimized_helper as called by TransformedOracleClause::optimized on the
+     underlying tree and the three coordinate trees (flatten if flagged, then
+     optimise, shared canonical map).  Section WithCoord proves everything from the
+     specification [coord_ok] of that call; [coord_lvl_sem] discharges it for every
+     level of the level fuel, level 0 (component left untouched, out-of-fuel flag
+     raised) included: VALUE PRESERVATION DOES NOT DEPEND ON THE FLAG.
+   - [flat_ok a i] is [good a i] (FlattenSem.v): below every apply node reachable
+     from i (through all links, coordinate trees included) the transformed oracles
+     have variable-independent components -- the C++ does not substitute applied
+     variables inside coordinate trees.  Implied by [noT a i]; vacuous without apply
+     nodes.  Needed because coordinate trees are now flattened by the optimiser.
    - [fuel_enough fuel i] is [4*i+3 <= fuel] ([opt_fuel i = 4*(i+1)] suffices).
      Per context: opt_tree 4*i+3, opt_other 4*i+1, opt_affine 4*i+2, opt_comm
      4*i+4 in general and 4*i+1 when node i is a commutative node of the very
-     opcode being collected ([comm_fuel]; this is the only way opt_tree and
-     opt_affine call it on the same id).
-   - [optimized_sem_noT] needs exactly the hypothesis of [flatten_sem]
-     ([noT a i]: no already-transformed oracle at or below [i]); the [pure]
-     variant of the task ([optimized_sem]) is its corollary.
+     opcode being collected ([comm_fuel]).
+   - [optimized_sem_noT], [optimized_sem], [cooptimize_sem] keep their former
+     statements ([noT]); [optimized_sem_o], [cooptimize_sem_o], [optimized_helper_sem_o]
+     are the versions for trees with transformed oracles anywhere ([good]).
 
    Main results: [opt_tree_sem], [opt_other_sem], [opt_affine_sem],
    [opt_comm_sem] (one simultaneous induction on fuel, [opt_all_sem]),
@@ -277,7 +283,7 @@ Section OptSem.
     res_ok (st_arena st) (lift_uniq O st res) f.
   Proof.
     intros (Hwf & Hb & Hc) (He & Hwf' & Hlt & Hv). unfold lift_uniq.
-    set (st' := {| st_arena := fst res; st_canon := st_canon st |}).
+    set (st' := {| st_arena := fst res; st_canon := st_canon st; st_oof := st_oof st |}).
     assert (Hok : st_ok st').
     { split; [exact Hwf'|]. split; cbn [st' st_arena st_canon].
       - eapply base_ok_extends; eauto.
@@ -734,80 +740,122 @@ Section OptSem.
     rewrite val_node by exact Hi; rewrite Hn; simpl. rewrite !getv_vals_firstn by lia. reflexivity.
   Qed.
 
+  (* the children [classify] hands out are children of the node *)
+  Notation good := (good O osem).
+  Lemma classify_akids (a : arena) i :
+    match classify a i with
+    | CAffNeg x => In x (akids (getn a i))
+    | CAffAdd x y | CAffSub x y => In x (akids (getn a i)) /\ In y (akids (getn a i))
+    | CAffMulL _ y => In y (akids (getn a i))
+    | CAffMulR x _ | CAffDiv x _ => In x (akids (getn a i))
+    | CComm op x y => In x (akids (getn a i)) /\ In y (akids (getn a i))
+    | COther => True
+    end.
+  Proof.
+    unfold classify.
+    destruct (getn a i) as [c|o|o x|o x y|k|x y z u|x y z t|v e t|]; try exact I.
+    - destruct o; try exact I. simpl; auto.
+    - destruct o; try exact I; try (simpl; auto; fail).
+      + destruct (getn a x); try (simpl; auto; fail);
+          destruct (getn a y); simpl; auto.
+      + destruct (getn a y); try exact I. simpl; auto.
+  Qed.
+
+  Lemma good_child st st1 i k : arena_wf (st_arena st) -> extends (st_arena st) (st_arena st1) ->
+    i < length (st_arena st) -> good (st_arena st) i -> In k (akids (getn (st_arena st) i)) ->
+    good (st_arena st1) k.
+  Proof.
+    intros Hwf He Hi Hg Hk. pose proof (akid_lt osem _ i k Hwf Hi Hk).
+    apply (good_ext O osem (st_arena st) (st_arena st1)); auto; [lia|]. eapply good_kid; eauto.
+  Qed.
+
+  (* ---------------------------------------------------------------- *)
+  (* [coord]: Tree::optimized_helper as called on the components of a transformed
+     oracle; everything below is relative to its specification [coord_ok], which is
+     discharged for every level by [coord_lvl_sem] *)
+  Section WithCoord.
+  Variable coord : ost -> nat -> ost * nat.
+  Hypothesis coord_ok : forall st i, st_ok st -> i < length (st_arena st) -> good (st_arena st) i ->
+    res_ok (st_arena st) (coord st i) (val (st_arena st) i).
+  Notation opt_tree := (opt_tree O coord).
+  Notation opt_other := (opt_other O coord).
+  Notation opt_affine := (opt_affine O coord).
+  Notation opt_comm := (opt_comm O coord).
+
   (* ---------------------------------------------------------------- *)
   (* unfolding equations of the four mutually recursive functions *)
   Lemma opt_tree_S f st i :
-    opt_tree O (S f) st i =
+    opt_tree (S f) st i =
     match classify (st_arena st) i with
     | CAffNeg _ | CAffAdd _ _ | CAffSub _ _ | CAffMulL _ _ | CAffMulR _ _ | CAffDiv _ _ =>
-        let '(st1, m) := opt_affine O f st (o_one O) i [] in
+        let '(st1, m) := opt_affine f st (o_one O) i [] in
         rebuild_affine O st1 m
     | CComm op _ _ =>
-        let '(st1, l) := opt_comm O f st op i [] in
+        let '(st1, l) := opt_comm f st op i [] in
         fold_comm O st1 op l
-    | COther => opt_other O f st i
+    | COther => opt_other f st i
     end.
   Proof. reflexivity. Qed.
 
   Lemma opt_other_S f st i :
-    opt_other O (S f) st i =
+    opt_other (S f) st i =
     match getn (st_arena st) i with
     | NUnary op x =>
-        let '(st1, x') := opt_tree O f st x in
+        let '(st1, x') := opt_tree f st x in
         let '(st2, self) := uniq O st1 i in
         if Nat.eqb x' x then (st2, self)
         else lift_uniq O st2 (mk_unary O (st_arena st2) op x')
     | NBinary op x y =>
-        let '(st1, y') := opt_tree O f st y in
-        let '(st2, x') := opt_tree O f st1 x in
+        let '(st1, y') := opt_tree f st y in
+        let '(st2, x') := opt_tree f st1 x in
         let '(st3, self) := uniq O st2 i in
         if Nat.eqb x' x && Nat.eqb y' y then (st3, self)
         else lift_uniq O st3 (mk_bin O (st_arena st3) op x' y')
     | NOracleT x y z u =>
         let '(st0, self) := uniq O st i in
-        let '(st1, u') := opt_tree O f st0 u in
-        let '(st2, x') := opt_tree O f st1 x in
-        let '(st3, y') := opt_tree O f st2 y in
-        let '(st4, z') := opt_tree O f st3 z in
+        let '(st1, u') := coord st0 u in
+        let '(st2, x') := coord st1 x in
+        let '(st3, y') := coord st2 y in
+        let '(st4, z') := coord st3 z in
         lift_uniq O st4 (push (st_arena st4) (NOracleT x' y' z' u'))
     | _ => uniq O st i
     end.
   Proof. reflexivity. Qed.
 
   Lemma opt_affine_S f st s i m :
-    opt_affine O (S f) st s i m =
+    opt_affine (S f) st s i m =
     match classify (st_arena st) i with
-    | CAffNeg x => opt_affine O f st (o_neg O s) x m
+    | CAffNeg x => opt_affine f st (o_neg O s) x m
     | CAffAdd x y =>
-        let '(st1, m1) := opt_affine O f st s y m in
-        opt_affine O f st1 s x m1
+        let '(st1, m1) := opt_affine f st s y m in
+        opt_affine f st1 s x m1
     | CAffSub x y =>
-        let '(st1, m1) := opt_affine O f st (o_neg O s) y m in
-        opt_affine O f st1 s x m1
-    | CAffMulL c y => opt_affine O f st (o_mul O c s) y m
-    | CAffMulR x c => opt_affine O f st (o_mul O c s) x m
-    | CAffDiv x c => opt_affine O f st (o_div O s c) x m
+        let '(st1, m1) := opt_affine f st (o_neg O s) y m in
+        opt_affine f st1 s x m1
+    | CAffMulL c y => opt_affine f st (o_mul O c s) y m
+    | CAffMulR x c => opt_affine f st (o_mul O c s) x m
+    | CAffDiv x c => opt_affine f st (o_div O s c) x m
     | CComm op _ _ =>
-        let '(st1, l) := opt_comm O f st op i [] in
+        let '(st1, l) := opt_comm f st op i [] in
         let '(st2, n) := fold_comm O st1 op l in
         (st2, add_term O st2 m n s)
     | COther =>
-        let '(st1, n) := opt_other O f st i in
+        let '(st1, n) := opt_other f st i in
         (st1, add_term O st1 m n s)
     end.
   Proof. reflexivity. Qed.
 
   Lemma opt_comm_S f st op i l :
-    opt_comm O (S f) st op i l =
+    opt_comm (S f) st op i l =
     match classify (st_arena st) i with
     | CComm op' x y =>
         if opcode_eqb op' op then
-          let '(st1, l1) := opt_comm O f st op y l in
-          opt_comm O f st1 op x l1
+          let '(st1, l1) := opt_comm f st op y l in
+          opt_comm f st1 op x l1
         else
-          let '(st1, n) := opt_tree O f st i in (st1, l ++ [n])
+          let '(st1, n) := opt_tree f st i in (st1, l ++ [n])
     | _ =>
-        let '(st1, n) := opt_tree O f st i in (st1, l ++ [n])
+        let '(st1, n) := opt_tree f st i in (st1, l ++ [n])
     end.
   Proof. reflexivity. Qed.
 
@@ -828,43 +876,43 @@ Section OptSem.
     ((exists x y, classify a i = CComm op x y) /\ 4 * i + 1 <= fuel) \/ 4 * i + 4 <= fuel.
 
   Definition P_tree (fuel : nat) : Prop := forall st i,
-    st_ok st -> i < length (st_arena st) -> 4 * i + 3 <= fuel ->
-    res_ok (st_arena st) (opt_tree O fuel st i) (val (st_arena st) i).
+    st_ok st -> i < length (st_arena st) -> good (st_arena st) i -> 4 * i + 3 <= fuel ->
+    res_ok (st_arena st) (opt_tree fuel st i) (val (st_arena st) i).
   Definition P_other (fuel : nat) : Prop := forall st i,
-    st_ok st -> i < length (st_arena st) -> 4 * i + 1 <= fuel ->
-    res_ok (st_arena st) (opt_other O fuel st i) (val (st_arena st) i).
+    st_ok st -> i < length (st_arena st) -> good (st_arena st) i -> 4 * i + 1 <= fuel ->
+    res_ok (st_arena st) (opt_other fuel st i) (val (st_arena st) i).
   Definition P_aff (fuel : nat) : Prop := forall st s i m,
-    st_ok st -> i < length (st_arena st) -> amap_ok (st_arena st) m -> 4 * i + 2 <= fuel ->
-    aff_ok (st_arena st) (opt_affine O fuel st s i m)
+    st_ok st -> i < length (st_arena st) -> good (st_arena st) i -> amap_ok (st_arena st) m -> 4 * i + 2 <= fuel ->
+    aff_ok (st_arena st) (opt_affine fuel st s i m)
            (fun r => (s * val (st_arena st) i r + amap_sum (st_arena st) m r)%R).
   Definition P_comm (fuel : nat) : Prop := forall st op i l,
-    st_ok st -> i < length (st_arena st) -> comm_op op -> comm_fuel fuel op (st_arena st) i ->
-    comm_ok (st_arena st) op l (opt_comm O fuel st op i l) (val (st_arena st) i).
+    st_ok st -> i < length (st_arena st) -> good (st_arena st) i -> comm_op op -> comm_fuel fuel op (st_arena st) i ->
+    comm_ok (st_arena st) op l (opt_comm fuel st op i l) (val (st_arena st) i).
 
   Lemma aff_then_rebuild f st i : P_aff f -> st_ok st -> i < length (st_arena st) ->
-    4 * i + 2 <= f ->
+    good (st_arena st) i -> 4 * i + 2 <= f ->
     res_ok (st_arena st)
-      (let '(st1, m) := opt_affine O f st (o_one O) i [] in rebuild_affine O st1 m)
+      (let '(st1, m) := opt_affine f st (o_one O) i [] in rebuild_affine O st1 m)
       (val (st_arena st) i).
   Proof.
-    intros PA Hst Hi Hf.
-    pose proof (PA st (o_one O) i [] Hst Hi (Forall_nil _) Hf) as H1.
-    destruct (opt_affine O f st (o_one O) i []) as [st1 m].
+    intros PA Hst Hi Hg Hf.
+    pose proof (PA st (o_one O) i [] Hst Hi Hg (Forall_nil _) Hf) as H1.
+    destruct (opt_affine f st (o_one O) i []) as [st1 m].
     destruct H1 as (Hst1 & He1 & Hm & Hv); cbn [fst snd] in *.
     eapply res_trans; [exact He1|]. eapply res_weaken; [apply rebuild_affine_ok; assumption|].
     intros r. rewrite Hv. rsimp. cbn [amap_sum fold_right]. lra.
   Qed.
 
   Lemma comm_then_fold f st op i x y : P_comm f -> st_ok st -> i < length (st_arena st) ->
-    classify (st_arena st) i = CComm op x y -> comm_op op -> 4 * i + 1 <= f ->
+    good (st_arena st) i -> classify (st_arena st) i = CComm op x y -> comm_op op -> 4 * i + 1 <= f ->
     res_ok (st_arena st)
-      (let '(st1, l) := opt_comm O f st op i [] in fold_comm O st1 op l)
+      (let '(st1, l) := opt_comm f st op i [] in fold_comm O st1 op l)
       (val (st_arena st) i).
   Proof.
-    intros PC Hst Hi Ec Hop Hf.
+    intros PC Hst Hi Hg Ec Hop Hf.
     assert (Hcf : comm_fuel f op (st_arena st) i) by (left; split; [exists x, y; exact Ec | exact Hf]).
-    pose proof (PC st op i [] Hst Hi Hop Hcf) as H1.
-    destruct (opt_comm O f st op i []) as [st1 l].
+    pose proof (PC st op i [] Hst Hi Hg Hop Hcf) as H1.
+    destruct (opt_comm f st op i []) as [st1 l].
     destruct H1 as (Hst1 & He1 & l2 & Hl & Hne & Hids & Hv); cbn [fst snd app] in *. subst l.
     eapply res_trans; [exact He1|]. eapply res_weaken; [apply fold_comm_ok; assumption|].
     exact Hv.
@@ -872,10 +920,10 @@ Section OptSem.
 
   Lemma tree_step f : P_aff f -> P_comm f -> P_other f -> P_tree (S f).
   Proof.
-    intros PA PC PO st i Hst Hi Hf. rewrite opt_tree_S.
+    intros PA PC PO st i Hst Hi Hg Hf. rewrite opt_tree_S.
     pose proof (classify_cases (st_arena st) i (proj1 Hst) Hi) as Hc. revert Hc.
     destruct (classify (st_arena st) i) as [x|x y|x y|c y|x c|x c|op x y|] eqn:Ec; intros Hc;
-      try (apply aff_then_rebuild; [exact PA | exact Hst | exact Hi | lia]).
+      try (apply aff_then_rebuild; [exact PA | exact Hst | exact Hi | exact Hg | lia]).
     - destruct Hc as (Hop & _). eapply comm_then_fold; eauto. lia.
     - apply PO; auto. lia.
   Qed.
@@ -885,17 +933,20 @@ Section OptSem.
 
   Lemma other_step f : P_tree f -> P_other (S f).
   Proof.
-    intros PT st i Hst Hi Hf. rewrite opt_other_S.
+    intros PT st i Hst Hi Hg Hf. rewrite opt_other_S.
     pose proof (st_ok_wf st Hst) as Hwf.
+    assert (Hgk : forall st1 k, extends (st_arena st) (st_arena st1) ->
+                  In k (akids (getn (st_arena st) i)) -> good (st_arena st1) k)
+      by (intros st1 k0 He0 Hk0; exact (good_child st st1 i k0 Hwf He0 Hi Hg Hk0)).
     destruct (getn (st_arena st) i) as [c|o|o x|o x y|k|x y z u|x y z t|v e t|] eqn:Hn;
-      try (apply uniq_ok; assumption).
+      try (apply uniq_ok; assumption); cbn [akids] in Hgk.
     - (* unary *)
       destruct (val_unary O osem _ i o x (env0 O) Hwf Hi Hn) as [Hxi _].
       assert (Hv : forall r, val (st_arena st) i r = o_un O o (val (st_arena st) x r))
         by (intros r; apply (val_unary O osem _ i o x r Hwf Hi Hn)).
       pose proof (shape_unary_args _ i o x Hwf Hi Hn) as Hop.
-      pose proof (PT st x Hst ltac:(lia) ltac:(lia)) as H1.
-      destruct (opt_tree O f st x) as [st1 x'].
+      pose proof (PT st x Hst ltac:(lia) (Hgk st x (extends_refl _) ltac:(simpl; auto)) ltac:(lia)) as H1.
+      destruct (opt_tree f st x) as [st1 x'].
       destruct H1 as (Hst1 & He1 & Hx' & Hv1); cbn [fst snd] in *.
       pose proof (extends_length _ _ He1) as Hl1.
       pose proof (uniq_ok st1 i Hst1 ltac:(lia)) as H2.
@@ -915,12 +966,12 @@ Section OptSem.
                              = o_bin O o (val (st_arena st) x r) (val (st_arena st) y r))
         by (intros r; apply (val_binary O osem _ i o x y r Hwf Hi Hn)).
       pose proof (shape_binary_args _ i o x y Hwf Hi Hn) as Hop.
-      pose proof (PT st y Hst ltac:(lia) ltac:(lia)) as H1.
-      destruct (opt_tree O f st y) as [st1 y'].
+      pose proof (PT st y Hst ltac:(lia) (Hgk st y (extends_refl _) ltac:(simpl; auto)) ltac:(lia)) as H1.
+      destruct (opt_tree f st y) as [st1 y'].
       destruct H1 as (Hst1 & He1 & Hy' & Hv1); cbn [fst snd] in *.
       pose proof (extends_length _ _ He1) as Hl1.
-      pose proof (PT st1 x Hst1 ltac:(lia) ltac:(lia)) as H2.
-      destruct (opt_tree O f st1 x) as [st2 x'].
+      pose proof (PT st1 x Hst1 ltac:(lia) (Hgk st1 x He1 ltac:(simpl; auto)) ltac:(lia)) as H2.
+      destruct (opt_tree f st1 x) as [st2 x'].
       destruct H2 as (Hst2 & He2 & Hx' & Hv2); cbn [fst snd] in *.
       pose proof (extends_length _ _ He2) as Hl2.
       pose proof (uniq_ok st2 i Hst2 ltac:(lia)) as H3.
@@ -949,25 +1000,25 @@ Section OptSem.
       destruct (uniq O st i) as [st0 self].
       destruct H0 as (Hst0 & He0 & _ & _); cbn [fst snd] in *.
       pose proof (extends_length _ _ He0) as Hl0.
-      pose proof (PT st0 u Hst0 ltac:(lia) ltac:(lia)) as H1.
-      destruct (opt_tree O f st0 u) as [st1 u'].
+      pose proof (coord_ok st0 u Hst0 ltac:(lia) (Hgk st0 u He0 ltac:(simpl; auto))) as H1.
+      destruct (coord st0 u) as [st1 u'].
       destruct H1 as (Hst1 & He1 & Hu' & Hv1); cbn [fst snd] in *.
       pose proof (extends_length _ _ He1) as Hl1.
-      pose proof (PT st1 x Hst1 ltac:(lia) ltac:(lia)) as H2.
-      destruct (opt_tree O f st1 x) as [st2 x'].
+      assert (He01 : extends (st_arena st) (st_arena st1)) by (eapply extends_trans; eauto).
+      pose proof (coord_ok st1 x Hst1 ltac:(lia) (Hgk st1 x He01 ltac:(simpl; auto))) as H2.
+      destruct (coord st1 x) as [st2 x'].
       destruct H2 as (Hst2 & He2 & Hx' & Hv2); cbn [fst snd] in *.
       pose proof (extends_length _ _ He2) as Hl2.
-      pose proof (PT st2 y Hst2 ltac:(lia) ltac:(lia)) as H3.
-      destruct (opt_tree O f st2 y) as [st3 y'].
+      assert (He02 : extends (st_arena st) (st_arena st2)) by (eapply extends_trans; eauto).
+      pose proof (coord_ok st2 y Hst2 ltac:(lia) (Hgk st2 y He02 ltac:(simpl; auto))) as H3.
+      destruct (coord st2 y) as [st3 y'].
       destruct H3 as (Hst3 & He3 & Hy' & Hv3); cbn [fst snd] in *.
       pose proof (extends_length _ _ He3) as Hl3.
-      pose proof (PT st3 z Hst3 ltac:(lia) ltac:(lia)) as H4.
-      destruct (opt_tree O f st3 z) as [st4 z'].
+      assert (He03 : extends (st_arena st) (st_arena st3)) by (eapply extends_trans; eauto).
+      pose proof (coord_ok st3 z Hst3 ltac:(lia) (Hgk st3 z He03 ltac:(simpl; auto))) as H4.
+      destruct (coord st3 z) as [st4 z'].
       destruct H4 as (Hst4 & He4 & Hz' & Hv4); cbn [fst snd] in *.
       pose proof (extends_length _ _ He4) as Hl4.
-      assert (He01 : extends (st_arena st) (st_arena st1)) by (eapply extends_trans; eauto).
-      assert (He02 : extends (st_arena st) (st_arena st2)) by (eapply extends_trans; eauto).
-      assert (He03 : extends (st_arena st) (st_arena st3)) by (eapply extends_trans; eauto).
       assert (He04 : extends (st_arena st) (st_arena st4)) by (eapply extends_trans; eauto).
       assert (He14 : extends (st_arena st1) (st_arena st4))
         by (eapply extends_trans; [|exact He4]; eapply extends_trans; eauto).
@@ -1005,27 +1056,35 @@ Section OptSem.
 
   (* two children, the right one first *)
   Lemma aff_two f st s1 s2 x y m : P_aff f -> st_ok st ->
-    x < length (st_arena st) -> y < length (st_arena st) -> amap_ok (st_arena st) m ->
+    x < length (st_arena st) -> y < length (st_arena st) ->
+    good (st_arena st) x -> good (st_arena st) y -> amap_ok (st_arena st) m ->
     4 * x + 2 <= f -> 4 * y + 2 <= f ->
     aff_ok (st_arena st)
-      (let '(st1, m1) := opt_affine O f st s2 y m in opt_affine O f st1 s1 x m1)
+      (let '(st1, m1) := opt_affine f st s2 y m in opt_affine f st1 s1 x m1)
       (fun r => (s1 * val (st_arena st) x r + s2 * val (st_arena st) y r
                  + amap_sum (st_arena st) m r)%R).
   Proof.
-    intros PA Hst Hx Hy Hm Hfx Hfy.
-    pose proof (PA st s2 y m Hst Hy Hm Hfy) as H1.
-    destruct (opt_affine O f st s2 y m) as [st1 m1].
+    intros PA Hst Hx Hy Gx Gy Hm Hfx Hfy.
+    pose proof (PA st s2 y m Hst Hy Gy Hm Hfy) as H1.
+    destruct (opt_affine f st s2 y m) as [st1 m1].
     destruct H1 as (Hst1 & He1 & Hm1 & Hv1); cbn [fst snd] in *.
     pose proof (extends_length _ _ He1) as Hl1.
+    pose proof (good_ext O osem _ _ x (st_ok_wf st Hst) He1 Hx Gx) as Gx1.
     eapply aff_trans; [exact He1|]. eapply aff_weaken; [apply PA; auto; lia|].
     intros r; cbn beta. rewrite Hv1, (extends_val O osem _ _ x r He1 Hx). lra.
   Qed.
 
   Lemma aff_step f : P_aff f -> P_comm f -> P_other f -> P_aff (S f).
   Proof.
-    intros PA PC PO st s i m Hst Hi Hm Hf. rewrite opt_affine_S.
+    intros PA PC PO st s i m Hst Hi Hg Hm Hf. rewrite opt_affine_S.
+    assert (Gk : forall k, In k (akids (getn (st_arena st) i)) -> good (st_arena st) k)
+      by (intros k Hk; eapply good_kid; eauto).
+    pose proof (classify_akids (st_arena st) i) as Hca. revert Hca.
     pose proof (classify_cases (st_arena st) i (st_ok_wf st Hst) Hi) as Hc. revert Hc.
-    destruct (classify (st_arena st) i) as [x|x y|x y|c y|x c|x c|op x y|] eqn:Ec; intros Hc.
+    destruct (classify (st_arena st) i) as [x|x y|x y|c y|x c|x c|op x y|] eqn:Ec; intros Hc Hca;
+      try (match type of Hca with _ /\ _ => destruct Hca as [Hca1 Hca2] end;
+           pose proof (Gk _ Hca1) as Gx; pose proof (Gk _ Hca2) as Gy);
+      try (pose proof (Gk _ Hca) as Gx).
     - destruct Hc as (Hx & Hv).
       eapply aff_weaken; [apply PA; auto; lia|]. intros r; cbn beta. rewrite Hv. rsimp. lra.
     - destruct Hc as (Hx & Hy & Hv).
@@ -1040,16 +1099,16 @@ Section OptSem.
       eapply aff_weaken; [apply PA; auto; lia|]. intros r; cbn beta. rewrite Hv. rsimp.
       unfold Rdiv. ring.
     - destruct Hc as (Hop & _).
-      pose proof (comm_then_fold f st op i x y PC Hst Hi Ec Hop ltac:(lia)) as H1.
-      destruct (opt_comm O f st op i []) as [st1 l].
+      pose proof (comm_then_fold f st op i x y PC Hst Hi Hg Ec Hop ltac:(lia)) as H1.
+      destruct (opt_comm f st op i []) as [st1 l].
       destruct (fold_comm O st1 op l) as [st2 n].
       destruct H1 as (Hst2 & He2 & Hn & Hv2); cbn [fst snd] in *.
       pose proof (amap_ok_extends _ _ m He2 Hm) as Hm2.
       destruct (add_term_ok st2 m n s Hst2 Hm2 Hn) as [Ha Hs].
       split; [exact Hst2|]. cbn [fst snd]. split; [exact He2|]. split; [exact Ha|].
       intros r. rewrite Hs, Hv2, (amap_sum_extends _ _ m r He2 Hm). lra.
-    - pose proof (PO st i Hst Hi ltac:(lia)) as H1.
-      destruct (opt_other O f st i) as [st1 n].
+    - pose proof (PO st i Hst Hi Hg ltac:(lia)) as H1.
+      destruct (opt_other f st i) as [st1 n].
       destruct H1 as (Hst1 & He1 & Hn & Hv1); cbn [fst snd] in *.
       pose proof (amap_ok_extends _ _ m He1 Hm) as Hm1.
       destruct (add_term_ok st1 m n s Hst1 Hm1 Hn) as [Ha Hs].
@@ -1058,12 +1117,12 @@ Section OptSem.
   Qed.
 
   Lemma comm_leaf f st op i l : P_tree f -> st_ok st -> i < length (st_arena st) ->
-    4 * i + 3 <= f ->
-    comm_ok (st_arena st) op l (let '(st1, n) := opt_tree O f st i in (st1, l ++ [n]))
+    good (st_arena st) i -> 4 * i + 3 <= f ->
+    comm_ok (st_arena st) op l (let '(st1, n) := opt_tree f st i in (st1, l ++ [n]))
             (val (st_arena st) i).
   Proof.
-    intros PT Hst Hi Hf. pose proof (PT st i Hst Hi Hf) as H1.
-    destruct (opt_tree O f st i) as [st1 n].
+    intros PT Hst Hi Hg Hf. pose proof (PT st i Hst Hi Hg Hf) as H1.
+    destruct (opt_tree f st i) as [st1 n].
     destruct H1 as (Hst1 & He1 & Hn & Hv1); cbn [fst snd] in *.
     split; [exact Hst1|]. cbn [fst snd]. split; [exact He1|].
     exists [n]. split; [reflexivity|]. split; [discriminate|].
@@ -1080,27 +1139,32 @@ Section OptSem.
 
   Lemma comm_step f : P_tree f -> P_comm f -> P_comm (S f).
   Proof.
-    intros PT PC st op i l Hst Hi Hop Hcf. rewrite opt_comm_S.
+    intros PT PC st op i l Hst Hi Hg Hop Hcf. rewrite opt_comm_S.
+    assert (Gk : forall k, In k (akids (getn (st_arena st) i)) -> good (st_arena st) k)
+      by (intros k Hk; eapply good_kid; eauto).
+    pose proof (classify_akids (st_arena st) i) as Hca. revert Hca.
     pose proof (classify_cases (st_arena st) i (st_ok_wf st Hst) Hi) as Hc. revert Hc.
     assert (Hleaf : (forall x y, classify (st_arena st) i <> CComm op x y) ->
                     comm_ok (st_arena st) op l
-                      (let '(st1, n) := opt_tree O f st i in (st1, l ++ [n])) (val (st_arena st) i)).
+                      (let '(st1, n) := opt_tree f st i in (st1, l ++ [n])) (val (st_arena st) i)).
     { intros Hne. apply comm_leaf; auto. destruct Hcf as [[(x & y & E) _]|H]; [|lia].
       exfalso; eapply Hne; eauto. }
-    destruct (classify (st_arena st) i) as [x|x y|x y|c y|x c|x c|op' x y|] eqn:Ec; intros Hc;
+    destruct (classify (st_arena st) i) as [x|x y|x y|c y|x c|x c|op' x y|] eqn:Ec; intros Hc Hca;
       try (apply Hleaf; intros; discriminate).
+    destruct Hca as [Hca1 Hca2]. pose proof (Gk _ Hca1) as Gx. pose proof (Gk _ Hca2) as Gy.
     destruct (opcode_eqb op' op) eqn:Eo.
     - apply opcode_eqb_eq in Eo; subst op'.
       destruct Hc as (_ & Hx & Hy & Hv).
       assert (Hf : 4 * i <= f) by (destruct Hcf as [[_ H]|H]; lia).
       assert (Hcy : comm_fuel f op (st_arena st) y) by (right; lia).
-      pose proof (PC st op y l Hst ltac:(lia) Hop Hcy) as H1.
-      destruct (opt_comm O f st op y l) as [st1 l1].
+      pose proof (PC st op y l Hst ltac:(lia) Gy Hop Hcy) as H1.
+      destruct (opt_comm f st op y l) as [st1 l1].
       destruct H1 as (Hst1 & He1 & ly & Hl1 & Hney & Hidy & Hvy); cbn [fst snd] in *.
       pose proof (extends_length _ _ He1) as Hl.
       assert (Hcx : comm_fuel f op (st_arena st1) x) by (right; lia).
-      pose proof (PC st1 op x l1 Hst1 ltac:(lia) Hop Hcx) as H2.
-      destruct (opt_comm O f st1 op x l1) as [st2 l2'].
+      pose proof (PC st1 op x l1 Hst1 ltac:(lia)
+                     (good_ext O osem _ _ x (st_ok_wf st Hst) He1 ltac:(lia) Gx) Hop Hcx) as H2.
+      destruct (opt_comm f st1 op x l1) as [st2 l2'].
       destruct H2 as (Hst2 & He2 & lx & Hl2 & Hnex & Hidx & Hvx); cbn [fst snd] in *.
       split; [exact Hst2|]. cbn [fst snd]. split; [eapply extends_trans; eauto|].
       exists (ly ++ lx). split; [subst; rewrite app_assoc; reflexivity|].
@@ -1116,10 +1180,10 @@ Section OptSem.
   Proof.
     induction fuel as [|f (PT & PO & PA & PC)].
     - split; [|split; [|split]].
-      + intros st i _ _ H; lia.
-      + intros st i _ _ H; lia.
-      + intros st s i m _ _ _ H; lia.
-      + intros st op i l _ _ _ [[_ H]|H]; lia.
+      + intros st i _ _ _ H; lia.
+      + intros st i _ _ _ H; lia.
+      + intros st s i m _ _ _ _ H; lia.
+      + intros st op i l _ _ _ _ [[_ H]|H]; lia.
     - split; [|split; [|split]].
       + apply tree_step; assumption.
       + apply other_step; assumption.
@@ -1130,57 +1194,119 @@ Section OptSem.
   (* ---------------------------------------------------------------- *)
   (* the theorems *)
   Definition fuel_enough (fuel i : nat) : Prop := 4 * i + 3 <= fuel.
-  (* no shape restriction is needed by the optimizer itself *)
-  Definition flat_ok (a : arena) (i : nat) : Prop := True.
+  (* the only shape restriction concerns the transformed oracles whose components are
+     flattened here: [good] (FlattenSem.v), implied by [noT] *)
+  Definition flat_ok (a : arena) (i : nat) : Prop := good a i.
 
   Theorem opt_tree_sem : forall fuel st i,
     st_ok st -> i < length (st_arena st) -> flat_ok (st_arena st) i -> fuel_enough fuel i ->
-    let '(st', j) := opt_tree O fuel st i in
+    let '(st', j) := opt_tree fuel st i in
     st_ok st' /\ extends (st_arena st) (st_arena st') /\ j < length (st_arena st') /\
     forall r, val (st_arena st') j r = val (st_arena st) i r.
   Proof.
-    intros fuel st i Hst Hi _ Hf.
-    destruct (opt_all_sem fuel) as (PT & _). pose proof (PT st i Hst Hi Hf) as H.
-    destruct (opt_tree O fuel st i) as [st' j]. exact H.
+    intros fuel st i Hst Hi Hg Hf.
+    destruct (opt_all_sem fuel) as (PT & _). pose proof (PT st i Hst Hi Hg Hf) as H.
+    destruct (opt_tree fuel st i) as [st' j]. exact H.
   Qed.
 
   (* the other three contexts, for completeness *)
   Theorem opt_other_sem : forall fuel st i,
-    st_ok st -> i < length (st_arena st) -> 4 * i + 1 <= fuel ->
-    res_ok (st_arena st) (opt_other O fuel st i) (val (st_arena st) i).
+    st_ok st -> i < length (st_arena st) -> good (st_arena st) i -> 4 * i + 1 <= fuel ->
+    res_ok (st_arena st) (opt_other fuel st i) (val (st_arena st) i).
   Proof. intros fuel; apply (opt_all_sem fuel). Qed.
 
   Theorem opt_affine_sem : forall fuel st s i m,
-    st_ok st -> i < length (st_arena st) -> amap_ok (st_arena st) m -> 4 * i + 2 <= fuel ->
-    aff_ok (st_arena st) (opt_affine O fuel st s i m)
+    st_ok st -> i < length (st_arena st) -> good (st_arena st) i -> amap_ok (st_arena st) m ->
+    4 * i + 2 <= fuel ->
+    aff_ok (st_arena st) (opt_affine fuel st s i m)
            (fun r => (s * val (st_arena st) i r + amap_sum (st_arena st) m r)%R).
   Proof. intros fuel; apply (opt_all_sem fuel). Qed.
 
   Theorem opt_comm_sem : forall fuel st op i l,
-    st_ok st -> i < length (st_arena st) -> comm_op op -> comm_fuel fuel op (st_arena st) i ->
-    comm_ok (st_arena st) op l (opt_comm O fuel st op i l) (val (st_arena st) i).
+    st_ok st -> i < length (st_arena st) -> good (st_arena st) i -> comm_op op ->
+    comm_fuel fuel op (st_arena st) i ->
+    comm_ok (st_arena st) op l (opt_comm fuel st op i l) (val (st_arena st) i).
   Proof. intros fuel; apply (opt_all_sem fuel). Qed.
 
-  Lemma st_ok_init a c : arena_wf a -> base_ok O a -> canon_ok a c ->
-    st_ok {| st_arena := a; st_canon := c |}.
+  (* Tree::optimized_helper on a state, one level: flatten, then the stack machine *)
+  Lemma helper_with_sem : forall st i,
+    st_ok st -> i < length (st_arena st) -> good (st_arena st) i ->
+    res_ok (st_arena st) (helper_with O coord st i) (val (st_arena st) i).
+  Proof.
+    intros st i (Hwf & Hb & Hc) Hi Hg. unfold helper_with.
+    pose proof (flatten_sem_o O osem LAWS _ i Hwf Hb Hi Hg) as H1.
+    pose proof (flatten_gr O osem _ i Hwf Hb Hi Hg) as G1.
+    destruct (flatten O (st_arena st) i) as [a1 j].
+    destruct H1 as (He1 & Hwf1 & Hj & Hv1); destruct G1 as (_ & _ & _ & Gj); cbn [fst snd] in *.
+    set (st' := {| st_arena := a1; st_canon := st_canon st; st_oof := st_oof st |}).
+    assert (Hst : st_ok st').
+    { split; [exact Hwf1|]. split; cbn [st' st_arena st_canon];
+        [eapply base_ok_extends; eauto | eapply canon_ok_extends; eauto]. }
+    destruct (opt_all_sem (opt_fuel j)) as (PT & _).
+    assert (Hf : 4 * j + 3 <= opt_fuel j) by (unfold opt_fuel; lia).
+    pose proof (PT st' j Hst Hj Gj Hf) as H2. cbn [st' st_arena] in H2.
+    eapply res_trans; [exact He1|]. eapply res_weaken; [exact H2|]. exact Hv1.
+  Qed.
+  End WithCoord.
+
+  (* the specification of [coord] holds at every level: at level 0 the component is
+     left as it is (and the out-of-fuel flag raised), which preserves the value too *)
+  Theorem coord_lvl_sem : forall n st i,
+    st_ok st -> i < length (st_arena st) -> good (st_arena st) i ->
+    res_ok (st_arena st) (coord_lvl O n st i) (val (st_arena st) i).
+  Proof.
+    induction n as [|n IH]; intros st i Hst Hi Hg.
+    - cbn [coord_lvl]. split; [exact Hst|]. cbn [fst snd set_oof st_arena].
+      split; [apply extends_refl|]. split; [exact Hi | reflexivity].
+    - cbn [coord_lvl]. apply helper_with_sem; assumption.
+  Qed.
+
+  Lemma st_ok_init a c o : arena_wf a -> base_ok O a -> canon_ok a c ->
+    st_ok {| st_arena := a; st_canon := c; st_oof := o |}.
   Proof. intros; split; [|split]; assumption. Qed.
 
-  (* Tree::optimized_helper with a threaded canonical map *)
+  (* Tree::optimized_helper with a threaded canonical map, any level fuel, sources
+     with transformed oracles anywhere; holds whether or not the level fuel ran out *)
+  Theorem optimized_helper_lvl_sem : forall n st i,
+    st_ok st -> i < length (st_arena st) -> good (st_arena st) i ->
+    res_ok (st_arena st) (optimized_helper_lvl O n st i) (val (st_arena st) i).
+  Proof.
+    intros n st i Hst Hi Hg. unfold optimized_helper_lvl.
+    apply (helper_with_sem (coord_lvl O n) (coord_lvl_sem n)); assumption.
+  Qed.
+
+  Theorem optimized_helper_sem_o : forall a c i,
+    arena_wf a -> base_ok O a -> canon_ok a c -> i < length a -> good a i ->
+    res_ok a (optimized_helper O a c i) (val a i).
+  Proof.
+    intros a c i Hwf Hb Hc Hi Hg. unfold optimized_helper.
+    apply (optimized_helper_lvl_sem (lvl_fuel a i)
+             {| st_arena := a; st_canon := c; st_oof := false |}); auto.
+    apply st_ok_init; assumption.
+  Qed.
+
   Theorem optimized_helper_sem : forall a c i,
     arena_wf a -> base_ok O a -> canon_ok a c -> i < length a -> noT a i ->
     res_ok a (optimized_helper O a c i) (val a i).
   Proof.
-    intros a c i Hwf Hb Hc Hi HnoT. unfold optimized_helper.
-    pose proof (flatten_sem O osem LAWS a i Hwf Hb Hi HnoT) as H1.
-    destruct (flatten O a i) as [a1 j].
-    destruct H1 as (He1 & Hwf1 & Hj & Hv1); cbn [fst snd] in *.
-    set (st := {| st_arena := a1; st_canon := c |}).
-    assert (Hst : st_ok st).
-    { apply st_ok_init; [exact Hwf1 | eapply base_ok_extends; eauto | eapply canon_ok_extends; eauto]. }
-    destruct (opt_all_sem (opt_fuel j)) as (PT & _).
-    assert (Hf : 4 * j + 3 <= opt_fuel j) by (unfold opt_fuel; lia).
-    pose proof (PT st j Hst Hj Hf) as H2. cbn [st st_arena] in H2.
-    eapply res_trans; [exact He1|]. eapply res_weaken; [exact H2|]. exact Hv1.
+    intros a c i Hwf Hb Hc Hi HnoT. apply optimized_helper_sem_o; auto.
+    apply good_noT; assumption.
+  Qed.
+
+  (* Tree::optimized on a source with transformed oracles anywhere (lazy remaps /
+     applies above and inside them) *)
+  Theorem optimized_sem_o : forall a i,
+    arena_wf a -> base_ok O a -> i < length a -> good a i ->
+    let '(a', j) := optimized O a i in
+    extends a a' /\ arena_wf a' /\ base_ok O a' /\ j < length a' /\
+    forall r, val a' j r = val a i r.
+  Proof.
+    intros a i Hwf Hb Hi Hg. unfold optimized, optimized_full.
+    pose proof (optimized_helper_sem_o a [] i Hwf Hb (Forall_nil _) Hi Hg) as H.
+    destruct (optimized_helper O a [] i) as [st j].
+    destruct H as (Hst & He & Hj & Hv); cbn [fst snd] in *.
+    split; [exact He|]. split; [apply st_ok_wf; exact Hst|]. split; [apply Hst|].
+    split; [exact Hj | exact Hv].
   Qed.
 
   (* Tree::optimized; [noT] is the hypothesis of [flatten_sem] *)
@@ -1189,11 +1315,9 @@ Section OptSem.
     let '(a', j) := optimized O a i in
     extends a a' /\ arena_wf a' /\ j < length a' /\ forall r, val a' j r = val a i r.
   Proof.
-    intros a i Hwf Hb Hi HnoT. unfold optimized.
-    pose proof (optimized_helper_sem a [] i Hwf Hb (Forall_nil _) Hi HnoT) as H.
-    destruct (optimized_helper O a [] i) as [st j].
-    destruct H as (Hst & He & Hj & Hv); cbn [fst snd] in *.
-    split; [exact He|]. split; [apply st_ok_wf; exact Hst|]. split; [exact Hj | exact Hv].
+    intros a i Hwf Hb Hi HnoT.
+    pose proof (optimized_sem_o a i Hwf Hb Hi (good_noT O osem a i Hwf Hi HnoT)) as H.
+    destruct (optimized O a i) as [a' j]. destruct H as (H1 & H2 & _ & H3 & H4). auto.
   Qed.
 
   (* remap-free, oracle-free arenas *)
@@ -1217,21 +1341,21 @@ Section OptSem.
 
   (* Tree::eq compares two handles optimized against one shared canonical map;
      both optimized handles still denote the original functions *)
-  Theorem cooptimize_sem : forall a i j,
-    arena_wf a -> base_ok O a -> i < length a -> j < length a -> noT a i -> noT a j ->
+  Theorem cooptimize_sem_o : forall a i j,
+    arena_wf a -> base_ok O a -> i < length a -> j < length a -> good a i -> good a j ->
     let '(st1, i') := optimized_helper O a [] i in
     let '(st2, j') := optimized_helper O (st_arena st1) (st_canon st1) j in
     extends a (st_arena st2) /\ i' < length (st_arena st2) /\ j' < length (st_arena st2) /\
     forall r, val (st_arena st2) i' r = val a i r /\ val (st_arena st2) j' r = val a j r.
   Proof.
     intros a i j Hwf Hb Hi Hj Hni Hnj.
-    pose proof (optimized_helper_sem a [] i Hwf Hb (Forall_nil _) Hi Hni) as H1.
+    pose proof (optimized_helper_sem_o a [] i Hwf Hb (Forall_nil _) Hi Hni) as H1.
     destruct (optimized_helper O a [] i) as [st1 i'].
     destruct H1 as (Hst1 & He1 & Hi' & Hv1); cbn [fst snd] in *.
     destruct Hst1 as (Hwf1 & Hb1 & Hc1).
     pose proof (extends_length _ _ He1) as Hl1.
-    assert (Hnj1 : noT (st_arena st1) j) by (eapply noT_extends; eauto).
-    pose proof (optimized_helper_sem (st_arena st1) (st_canon st1) j Hwf1 Hb1 Hc1 ltac:(lia) Hnj1) as H2.
+    assert (Hnj1 : good (st_arena st1) j) by exact (good_ext O osem a (st_arena st1) j Hwf He1 Hj Hnj).
+    pose proof (optimized_helper_sem_o (st_arena st1) (st_canon st1) j Hwf1 Hb1 Hc1 ltac:(lia) Hnj1) as H2.
     destruct (optimized_helper O (st_arena st1) (st_canon st1) j) as [st2 j'].
     destruct H2 as (Hst2 & He2 & Hj' & Hv2); cbn [fst snd] in *.
     pose proof (extends_length _ _ He2) as Hl2.
@@ -1240,9 +1364,22 @@ Section OptSem.
     - rewrite (extends_val O osem _ _ i' r He2 Hi'). apply Hv1.
     - rewrite Hv2. apply (extends_val O osem); auto.
   Qed.
+
+  Theorem cooptimize_sem : forall a i j,
+    arena_wf a -> base_ok O a -> i < length a -> j < length a -> noT a i -> noT a j ->
+    let '(st1, i') := optimized_helper O a [] i in
+    let '(st2, j') := optimized_helper O (st_arena st1) (st_canon st1) j in
+    extends a (st_arena st2) /\ i' < length (st_arena st2) /\ j' < length (st_arena st2) /\
+    forall r, val (st_arena st2) i' r = val a i r /\ val (st_arena st2) j' r = val a j r.
+  Proof.
+    intros a i j Hwf Hb Hi Hj Hni Hnj.
+    apply cooptimize_sem_o; auto; apply good_noT; assumption.
+  Qed.
 End OptSem.
 
 Print Assumptions opt_tree_sem.
 Print Assumptions optimized_sem.
 Print Assumptions optimized_sem_noT.
 Print Assumptions cooptimize_sem.
+Print Assumptions optimized_sem_o.
+Print Assumptions cooptimize_sem_o.
